@@ -2,6 +2,10 @@ import PysnarkModel.Lemmas.GuardedInertRun
 import PysnarkModel.Lemmas.GuardedTransparentNest
 import PysnarkModel.Lemmas.GuardedSound
 import PysnarkModel.Lemmas.GuardedInv
+import PysnarkModel.Lemmas.GuardedProgram
+import PysnarkModel.Lemmas.GuardedNest
+import PysnarkModel.Lemmas.GuardedZero
+import PysnarkModel.Lemmas.GuardedEnforce
 /-!
 # C07 — a false guard makes code inert; a true guard is transparent
 
@@ -23,6 +27,17 @@ Vocabulary (Lemmas/GuardedInert*.lean, GuardedTransparent*.lean, GuardedSound.le
   bit length, resolution, modulus; they may differ in whether a guard is installed.
   `Tr R m1 m2` : from `TRel`-related states both runs return `R`-related results or both raise the
   same exception class.  `vEq`/`VRel` : same kind, same Python-level value.
+
+Whole programs from the initial state (Lemmas/GuardedBool, GuardedProgram, GuardedZero, GuardedNest,
+GuardedEnforce.lean): `cfgAt prog j …` is the configuration before instruction `j`.
+* `C07_inert_program` / `C07_zerodiv_program`: an instruction reached under an EFFECTIVE guard of
+  value 0 (any nesting depth) raises no `AssertionError`/`ValueError`/`ZeroDivisionError` unless it
+  is one of the computable deviations `stepOk` / `stepOkZ`; no hypothesis on registers (`BoolV` is an
+  invariant of every reachable configuration: `C07_boolean_clean_reached`).
+* `C07_sat_program`: every program without `set ign`, nested regions and `/` included.
+* `C07_true_transparent_nested`, `C07_true_transparent_from_init`: a true guard entered under an
+  effective guard of value 1 (any depth) is transparent.
+* `C07_true_enforcement_<gadget>`: same enforcement, per gadget, under every assignment.
 
 Deviations of the code (which the model reproduces), each with a closed counterexample below:
 (1) division by zero raises before the guard is consulted [C07-zero-division-under-false-guard],
@@ -48,7 +63,9 @@ def C07_inert_full : Prop :=
 entered since), a body that never leaves more regions than it enters and whose executed
 instructions avoid the listed deviations (`okAlong`: computable; `stepOk` spells them out) ends
 neither with `AssertionError` nor with `ValueError`, at any instruction.  (`ZeroDivisionError`:
-deviation (3), characterised exactly at the gadget level below.) -/
+deviation (3), exact per gadget below and lifted to programs in `C07_zerodiv_program`.  The
+hypothesis `BoolV` inside `ICfg` is discharged for programs run from the initial state by
+`C07_inert_program`.) -/
 theorem C07_inert_total (body : List Instr) (k : Nat) (regs : List Val) (frames : List GuardBak) (s : St) (d : Nat)
     (hcfg : ICfg d s regs frames) (hbal : balanced body d = true) (hok : okAlong body regs frames s = true)
     (e : Err) (j : Nat) (herr : (runAux body k regs frames s).err = some (e, j)) :
@@ -82,6 +99,151 @@ theorem C07_inert_total_syntactic (body : List Instr) (hall : ∀ i ∈ body, i.
     split
     · exact ih (fun j hj => hall j (List.mem_cons_of_mem _ hj)) _ _ _
     · rfl
+
+/-! ### programs started from the initial state: no assumption on the registers -/
+
+/-- `LinCombBool.__init__` tests the value before it looks at `constrain`, the guard or the error
+mode: whatever the state, one instruction maps boolean-clean registers (`BoolV`: every
+`LinCombBool` inside carries 0 or 1) to boolean-clean registers and a boolean-clean result.  So the
+hypothesis `BoolV` of `C07_inert_total` cannot fail in a reachable configuration — not outside
+regions, not under a true guard, not under a false guard, not in user-selected ignore mode. -/
+theorem C07_boolean_clean_step {regs regs' : List Val} {frames frames' : List GuardBak} {i : Instr} {s s' : St} {v : Val}
+    (hregs : ∀ w ∈ regs, BoolV w) (hlit : ∀ w, i = .lit w → w.noSecret = true)
+    (h : step regs frames i s = .ok ((v, regs', frames'), s')) : BoolV v ∧ ∀ w ∈ regs', BoolV w :=
+  step_boolV frames hregs hlit s _ s' h
+
+/-- every configuration a program reaches from the initial state is boolean-clean (no restriction
+on `set ign` here) -/
+theorem C07_boolean_clean_reached : ∀ (prog : List Instr) (n : Nat) (regs : List Val) (frames : List GuardBak) (s : St),
+    (∀ v ∈ regs, BoolV v) → (∀ w, Instr.lit w ∈ prog → w.noSecret = true) →
+    ∀ regs' frames' s', cfgAt prog n regs frames s = some (regs', frames', s') → ∀ v ∈ regs', BoolV v
+  | _, 0, regs, frames, s, hB, _, regs', frames', s', h => by
+    simp only [cfgAt, Option.some.injEq, Prod.mk.injEq] at h
+    obtain ⟨rfl, rfl, rfl⟩ := h
+    exact hB
+  | [], n+1, _, _, _, _, _, _, _, _, h => by simp [cfgAt] at h
+  | i :: is, n+1, regs, frames, s, hB, hlit, regs', frames', s', h => by
+    have hmem : i ∈ i :: is := List.mem_cons_self ..
+    cases hstep : step regs frames i s with
+    | error e => simp [cfgAt, hstep] at h
+    | ok r =>
+      obtain ⟨⟨v, r1, f1⟩, s1⟩ := r
+      simp only [cfgAt, hstep] at h
+      obtain ⟨hv, hr1⟩ := C07_boolean_clean_step hB (fun w hw => hlit w (hw ▸ hmem)) hstep
+      refine C07_boolean_clean_reached is n _ _ _ ?_ (fun w hw => hlit w (List.mem_cons_of_mem _ hw)) regs' frames' s' h
+      intro w hw
+      rcases List.mem_append.mp hw with hw | hw
+      · exact hr1 w hw
+      · simp only [List.mem_singleton] at hw; subst hw; exact hv
+
+/-- **the effective guard.**  Entering `guarded(c)` inside a region guarded by `g` (under the tracer
+invariant) installs a guard of value `g · c`, and error suppression is on in the inner state exactly
+when that product is 0: the active guard of a configuration is the conjunction of the conditions of
+all enclosing regions, which is what "guard value at every nesting level" refers to in the
+program-level statements (`addGuardCore_nested`, Lemmas/InvNest.lean) -/
+theorem C07_effective_guard {s s' : St} {c g : LinComb} {bak : GuardBak} (hinv : Inv s) (hg : s.guard = some g)
+    (hc : Good s c) (h : addGuardCore (.lc c) s = .ok (bak, s')) :
+    ∃ g', s'.guard = some g' ∧ g'.value = g.value * c.value ∧ (g'.value = 0 ∨ g'.value = 1) ∧
+      (s'.ignoreErrors = true ↔ g'.value = 0) := by
+  obtain ⟨g', s1, -, f1, -, -, hv, hb, hi, rfl, -⟩ := addGuardCore_nested hinv hg hc h
+  refine ⟨g', rfl, hv, hb, ?_⟩
+  simp only
+  rw [f1.ign]
+  exact hi
+
+/-- **programs from the initial state.**  `prog`: any program without `set ign` whose literals are
+plain Python values (regions nested to any depth, any guard values).  If the run reaches
+instruction `j` in a configuration whose active guard has value 0 — the active guard is the
+EFFECTIVE guard, the product of the conditions of all enclosing regions (`addGuardCore_nested`) —
+then ANY instruction `i` that is none of the listed deviations on the operands it is about to read
+(`stepOk`, computable) raises neither `AssertionError` nor `ValueError` there.  No hypothesis on the
+registers, none on the instructions executed before. -/
+theorem C07_inert_program (q : Nat) (hq : q.Prime) (bl res : Nat) (prog : List Instr) (hset : NoSetIgn prog)
+    (hlit : ∀ w, Instr.lit w ∈ prog → w.noSecret = true) (j : Nat) {regs : List Val} {frames : List GuardBak} {s : St}
+    (hcfg : cfgAt prog j [] [] (St.init q bl res) = some (regs, frames, s))
+    {g : LinComb} (hg : s.guard = some g) (h0 : g.value = 0)
+    (i : Instr) (hok : stepOk s.resolution regs i = true) (e : Err) (herr : step regs frames i s = .error e) :
+    e ≠ .assertion ∧ e ≠ .value := by
+  obtain ⟨hR, hB⟩ := cfgAt_reach prog j [] [] _ ⟨Inv.init _ _ _, ⟨q, hq, rfl⟩, by simp, by simp⟩ (by simp) hset hlit
+    _ _ _ hcfg
+  have h := step_err_false_guard (FalseGuard.of_inv hR.inv hg h0) hB hok herr
+  constructor <;> (intro he; subst he; simp [Bad] at h)
+
+/-- the same read off the outcome of the run: an exception raised at instruction `j` was raised by
+`prog[j]` in the configuration the run had reached; if the effective guard was 0 there and the
+instruction is none of the listed deviations, it is neither `AssertionError` nor `ValueError` -/
+theorem C07_inert_program_run (q : Nat) (hq : q.Prime) (bl res : Nat) (prog : List Instr) (hset : NoSetIgn prog)
+    (hlit : ∀ w, Instr.lit w ∈ prog → w.noSecret = true) (e : Err) (j : Nat)
+    (herr : (run (St.init q bl res) prog).err = some (e, j)) :
+    ∃ i regs frames s, prog[j]? = some i ∧ cfgAt prog j [] [] (St.init q bl res) = some (regs, frames, s) ∧
+      step regs frames i s = .error e ∧
+      (∀ g, s.guard = some g → g.value = 0 → stepOk s.resolution regs i = true → e ≠ .assertion ∧ e ≠ .value) := by
+  obtain ⟨n, i, regs, frames, s, hj, hi, hc, he⟩ := runAux_err_cfgAt prog 0 [] [] _ e j herr
+  have hn : j = n := by omega
+  subst hn
+  exact ⟨i, regs, frames, s, hi, hc, he,
+    fun g hg h0 hok => C07_inert_program q hq bl res prog hset hlit j hc hg h0 i hok e he⟩
+
+/-- with the deviation list checked along the whole run (`okAlong`, the hypothesis of
+`C07_inert_total`): no instruction executed under an effective guard of value 0 raises
+`AssertionError` or `ValueError` -/
+theorem C07_inert_program_okAlong (q : Nat) (hq : q.Prime) (bl res : Nat) (prog : List Instr) (hset : NoSetIgn prog)
+    (hlit : ∀ w, Instr.lit w ∈ prog → w.noSecret = true)
+    (hok : okAlong prog [] [] (St.init q bl res) = true) (e : Err) (j : Nat)
+    (herr : (run (St.init q bl res) prog).err = some (e, j)) :
+    ∃ regs frames s, cfgAt prog j [] [] (St.init q bl res) = some (regs, frames, s) ∧
+      (∀ g, s.guard = some g → g.value = 0 → e ≠ .assertion ∧ e ≠ .value) := by
+  obtain ⟨i, regs, frames, s, hi, hc, -, h⟩ := C07_inert_program_run q hq bl res prog hset hlit e j herr
+  exact ⟨regs, frames, s, hc, fun g hg h0 => h g hg h0 (okAlong_cfgAt prog j [] [] _ hok i regs frames s hi hc)⟩
+
+/-! ### `ZeroDivisionError` under a false guard, for programs -/
+
+/-- **programs: `ZeroDivisionError` included.**  In the situation of `C07_inert_program` (the run of
+a plain program from the initial state has reached a configuration whose effective guard is 0), an
+instruction that is none of the listed deviations (`stepOk`) and performs no field inversion of a
+non-zero multiple of the modulus on the operands it is about to read (`stepOkZ`, computable: the
+tested value of `==`/`!=`/`check_zero()`/`check_nonzero()`, `index − k` for every position `k` of a
+secret array index, the public divisor of `LinComb / int`) raises NO value-caused exception:
+neither `AssertionError`, nor `ValueError`, nor `ZeroDivisionError`. -/
+theorem C07_zerodiv_program (q : Nat) (hq : q.Prime) (bl res : Nat) (prog : List Instr) (hset : NoSetIgn prog)
+    (hlit : ∀ w, Instr.lit w ∈ prog → w.noSecret = true) (j : Nat) {regs : List Val} {frames : List GuardBak} {s : St}
+    (hcfg : cfgAt prog j [] [] (St.init q bl res) = some (regs, frames, s))
+    {g : LinComb} (hg : s.guard = some g) (h0 : g.value = 0)
+    (i : Instr) (hok : stepOk s.resolution regs i = true) (hz : stepOkZ s.p s.resolution regs i = true)
+    (e : Err) (herr : step regs frames i s = .error e) : e ≠ .assertion ∧ e ≠ .value ∧ e ≠ .zerodiv := by
+  obtain ⟨hR, hB⟩ := cfgAt_reach prog j [] [] _ ⟨Inv.init _ _ _, ⟨q, hq, rfl⟩, by simp, by simp⟩ (by simp) hset hlit
+    _ _ _ hcfg
+  obtain ⟨q', hq', hp'⟩ := hR.prime
+  have hsm : SmallOk false s.p := by rw [hp']; exact SmallOk.of_prime hq' false
+  have h := step_err_false_guardZ (zd := false) (FalseGuard.of_inv hR.inv hg h0) hsm hB hok (fun _ => hz) herr
+  refine ⟨?_, ?_, ?_⟩ <;> (intro he; subst he; simp [Bad] at h)
+
+/-- **the only `ZeroDivisionError`s under a false guard are those of finding
+C07-field-zero-under-false-guard**: if an instruction that is none of the deviations (1), (2) raises
+`ZeroDivisionError` in a reached configuration whose effective guard is 0, it is a zero test, a
+secret-index array access or a `/` (`zeroSite`), and its operand condition `stepOkZ` fails: a tested
+value (or the public divisor) is not invertible although it is not the integer 0 — over the prime
+modulus: a NON-ZERO MULTIPLE of the modulus (`C07_fieldOk_prime`). -/
+theorem C07_zerodiv_only_field_zero (q : Nat) (hq : q.Prime) (bl res : Nat) (prog : List Instr) (hset : NoSetIgn prog)
+    (hlit : ∀ w, Instr.lit w ∈ prog → w.noSecret = true) (j : Nat) {regs : List Val} {frames : List GuardBak} {s : St}
+    (hcfg : cfgAt prog j [] [] (St.init q bl res) = some (regs, frames, s))
+    {g : LinComb} (hg : s.guard = some g) (h0 : g.value = 0)
+    (i : Instr) (hok : stepOk s.resolution regs i = true)
+    (herr : step regs frames i s = .error .zerodiv) :
+    stepOkZ s.p s.resolution regs i = false ∧ i.zeroSite = true := by
+  have hf : stepOkZ s.p s.resolution regs i = false := by
+    cases hz : stepOkZ s.p s.resolution regs i with
+    | false => rfl
+    | true => exact absurd rfl (C07_zerodiv_program q hq bl res prog hset hlit j hcfg hg h0 i hok hz _ herr).2.2
+  exact ⟨hf, zeroSite_of_stepOkZ_false hf⟩
+
+/-- one instruction, any false-guard state over a modulus in which 0, 1, −1 pass the zero test:
+the statement behind the two theorems above, with `ZeroDivisionError` in the forbidden set -/
+theorem C07_inert_step_zerodiv {s : St} {regs : List Val} {frames : List GuardBak} {i : Instr} {e : Err}
+    (hs : FalseGuard s) (hsm : SmallOk false s.p) (hregs : ∀ v ∈ regs, BoolV v)
+    (hok : stepOk s.resolution regs i = true) (hz : stepOkZ s.p s.resolution regs i = true)
+    (h : step regs frames i s = .error e) : Bad false e = false :=
+  step_err_false_guardZ hs hsm hregs hok (fun _ => hz) h
 
 /-! ### every gadget, with `ZeroDivisionError` in the forbidden set (`zd = false`) -/
 section gadgets
@@ -223,19 +385,42 @@ theorem C07_inert_sat_addConstraint {s s' : St} {v w y g : LinComb} {check : Boo
   obtain ⟨-, -, inv⟩ := addConstraint_false_guard_spec hinv hv hw hy hg g0 h
   exact ⟨inv, inv.sat⟩
 
-/-- **programs**: a completed run of `pre; genter c; body; gleave; post` (either guard value,
-operands of the body invalid or not) ends with every constraint satisfied by the recorded witness
-and every register coherent.  Instance of the invariant proof (`run_inv_plain`); `Fragment`: regions
-not nested, no `/` in a program with a region, no `set ign` (see Spec/R1CS.lean: none is a known
-counterexample on the repaired tree). -/
+/-- **programs, full strength**: ANY program without `set ign` whose literals are plain Python
+values: guarded regions nested to any depth with guards of either value, `/` anywhere, operands of
+the guarded bodies invalid or not.  Whether the run completes or raises (then `out.st` is the state
+before the failing instruction with the `guarded` frames unwound): every constraint is satisfied by
+the recorded witness, every register is coherent, the tracer invariant holds.  Instance of
+`run_inv_any` (C01/C04 at full strength; the effective guard of a nested region is analysed in
+Lemmas/InvNest.lean). -/
+theorem C07_sat_program (q : Nat) (hq : q.Prime) (bl res : Nat) (prog : List Instr) (hset : NoSetIgn prog)
+    (hlit : ∀ w, Instr.lit w ∈ prog → w.noSecret = true) :
+    (∀ k ∈ (run (St.init q bl res) prog).st.cons,
+        Sat (run (St.init q bl res) prog).st.p (run (St.init q bl res) prog).st.assign k) ∧
+      (∀ v ∈ (run (St.init q bl res) prog).regs, GoodV (run (St.init q bl res) prog).st v) ∧
+      Inv (run (St.init q bl res) prog).st := by
+  obtain ⟨inv, good⟩ := run_inv_plain_any q hq bl res prog hset hlit
+  exact ⟨inv.sat, good, inv⟩
+
+/-- the same at every configuration the run reaches (in particular inside regions whose guard is
+false, where the operands may be arbitrary): invariant, coherent registers, coherent saved frames -/
+theorem C07_sat_reached (q : Nat) (hq : q.Prime) (bl res : Nat) (prog : List Instr) (hset : NoSetIgn prog)
+    (hlit : ∀ w, Instr.lit w ∈ prog → w.noSecret = true) (n : Nat) {regs : List Val} {frames : List GuardBak} {s : St}
+    (h : cfgAt prog n [] [] (St.init q bl res) = some (regs, frames, s)) :
+    (∀ k ∈ s.cons, Sat s.p s.assign k) ∧ (∀ v ∈ regs, GoodV s v) ∧ Inv s := by
+  obtain ⟨hR, -⟩ := cfgAt_reach prog n [] [] _ ⟨Inv.init _ _ _, ⟨q, hq, rfl⟩, by simp, by simp⟩ (by simp) hset hlit
+    _ _ _ h
+  exact ⟨hR.inv.sat, hR.regs, hR.inv⟩
+
+/-- **programs** (first form, kept as a corollary): a completed run of
+`pre; genter c; body; gleave; post` of the `Fragment` (flat regions, no `/`). -/
 theorem C07_inert_sat (q : Nat) (hq : q.Prime) (bl res : Nat) (pre body post : List Instr) (c : Nat)
     (hfrag : Fragment (pre ++ .genter c :: body ++ .gleave :: post))
     (hlit : ∀ w, Instr.lit w ∈ pre ++ .genter c :: body ++ .gleave :: post → w.noSecret = true)
     (out : Out) (hout : run (St.init q bl res) (pre ++ .genter c :: body ++ .gleave :: post) = out)
-    (herr : out.err = none) :
+    (_herr : out.err = none) :
     (∀ k ∈ out.st.cons, Sat out.st.p out.st.assign k) ∧ (∀ v ∈ out.regs, GoodV out.st v) ∧ Inv out.st := by
-  obtain ⟨inv, good⟩ := run_inv_plain q hq bl res _ hfrag hlit out hout herr
-  exact ⟨inv.sat, good, inv⟩
+  subst hout
+  exact C07_sat_program q hq bl res _ hfrag.1 hlit
 
 /-- inside the region the invariant pins the error mode to the guard value: suppression is on
 exactly under a false guard -/
@@ -298,6 +483,89 @@ def C07_true_transparent_full : Prop :=
 theorem C07_true_transparent_programs : C07_true_transparent_full :=
   fun body post k regs frames s c _ hb hok hg hi hbl hone hc hx =>
     region_transparent_nest (nest_of_bracketed post body 0 hb hok) k regs frames s c hg hi hbl hone hc hx
+
+/-- **both guard values at every nesting level: a true guard under a true guard.**  The same
+statement for a region entered in a state whose active guard — the effective guard of ALL enclosing
+regions — has value 1 (error checking on, as the tracer invariant says it is under a guard of value
+1; `LinComb.ONE`, which is that guard, of value 1; bit length ≥ 1, without which `outer & cond`
+cannot be computed).  The inner effective guard `outer & cond` is 1 again.  The unguarded twin runs
+under the outer guard only. -/
+def C07_true_transparent_nested_full : Prop :=
+  ∀ (body post : List Instr) (k : Nat) (regs : List Val) (frames : List GuardBak) (s : St) (c : Nat) (g x : LinComb),
+    bracketed body 0 = true → (∀ i ∈ body, i.twinOk = true) →
+    s.guard = some g → g.value = 1 → s.ignoreErrors = false → 1 ≤ s.bitlength → s.one.value = 1 →
+    (∃ cv, regs[c]? = some cv ∧ condOf cv = some x) → x.value = 1 →
+    OutRel (runAux (.lit .none :: (body ++ .lit .none :: post)) k regs frames s)
+      (runAux (.genter c :: (body ++ .gleave :: post)) k regs frames s)
+
+theorem C07_true_transparent_nested : C07_true_transparent_nested_full :=
+  fun body post k regs frames s c _ _ hb hok hg g1 hi hbl hone hc hx =>
+    region_transparent_nested (nest_of_bracketed post body 0 hb hok) k regs frames s c hg g1 hi hbl hone hc hx
+
+/-- the inner guard really is 1: `add_guard(x)` with `x = 1` under a guard of value 1 succeeds and
+installs a guard of the same value as the outer one (`GRel`: same observable configuration, active
+guards of equal value) -/
+theorem C07_true_in_true_guard {s : St} {g x : LinComb} (hg : s.guard = some g) (g1 : g.value = 1)
+    (hi : s.ignoreErrors = false) (hbl : 1 ≤ s.bitlength) (hone : s.one.value = 1) (hx : x.value = 1) :
+    ∃ bak s' g', addGuardCore (.lc x) s = .ok (bak, s') ∧ s'.guard = some g' ∧ g'.value = 1 ∧
+      s'.ignoreErrors = false := by
+  obtain ⟨bak, s', h, hrel⟩ := addGuardCore_true_in_true hg g1 hi hbl hone hx
+  have hgd := hrel.guard
+  rw [hg] at hgd
+  cases hg' : s'.guard with
+  | none => rw [hg'] at hgd; cases hgd
+  | some g' =>
+    rw [hg'] at hgd
+    have hv : g.value = g'.value := by cases hgd with | some h => exact h
+    exact ⟨bak, s', g', h, hg', by rw [← hv, g1], by rw [← hrel.tr.ign, hi]⟩
+
+/-- the hypothesis `1 ≤ s.bitlength` of the nested statements is needed: at bit length 0 the inner
+`add_guard` computes `outer & cond` by `to_bits()`, which rejects the value 1 ("1 is not a 0-bit
+positive integer": `AssertionError` from `guarded()` itself, replayed on the real code), while the
+text without the inner markers completes -/
+theorem C07_cex_nested_bitlength_zero :
+    (run (St.init bn254 0 8) [.lit (.int 1), .mk .priv 0, .genter 1, .genter 1, .gleave, .gleave]).err
+      = some (.assertion, 3) ∧
+    (run (St.init bn254 0 8) [.lit (.int 1), .mk .priv 0, .genter 1, .lit .none, .lit .none, .gleave]).err = none := by
+  constructor <;> first | decide +kernel | fail "closed computation failed"
+
+/-- **whole programs from the initial state, any nesting level.**  `pre`: any code without
+`set ign` (it may have entered any number of regions).  If it completes in a configuration whose
+effective guard is absent or 1 (`is_guard()`), at a bit length ≥ 1, and register `c` then holds a
+secret of value 1, the program with the region markers and the program with no-ops in their place
+end alike; if `pre` raises, both programs are the same run. -/
+theorem C07_true_transparent_from_init (q : Nat) (hq : q.Prime) (bl res : Nat) (pre body post : List Instr) (c : Nat)
+    (hset : NoSetIgn pre) (hlit : ∀ w, Instr.lit w ∈ pre → w.noSecret = true)
+    (hb : bracketed body 0 = true) (hok : ∀ i ∈ body, i.twinOk = true)
+    (hentry : ∀ regs frames s, cfgAt pre pre.length [] [] (St.init q bl res) = some (regs, frames, s) →
+      s.isGuard = true ∧ 1 ≤ s.bitlength ∧ ∃ cv x, regs[c]? = some cv ∧ condOf cv = some x ∧ x.value = 1) :
+    OutRel (run (St.init q bl res) (pre ++ .lit .none :: (body ++ .lit .none :: post)))
+      (run (St.init q bl res) (pre ++ .genter c :: (body ++ .gleave :: post))) := by
+  unfold run
+  obtain ⟨a1, a2⟩ := runAux_append_cfgAt pre (.lit .none :: (body ++ .lit .none :: post)) 0 [] [] (St.init q bl res)
+  obtain ⟨b1, b2⟩ := runAux_append_cfgAt pre (.genter c :: (body ++ .gleave :: post)) 0 [] [] (St.init q bl res)
+  cases hc : cfgAt pre pre.length [] [] (St.init q bl res) with
+  | none =>
+    rw [a2 hc, b2 hc]
+    exact ⟨rfl, forall2_refl VRel.refl _, ⟨rfl, rfl, rfl, rfl, rfl, rfl⟩⟩
+  | some cfg =>
+    obtain ⟨regs, frames, s⟩ := cfg
+    rw [a1 _ _ _ hc, b1 _ _ _ hc]
+    obtain ⟨hisg, hbl, cv, x, hcv, hcond, hx⟩ := hentry _ _ _ hc
+    obtain ⟨hR, -⟩ := cfgAt_reach pre pre.length [] [] _ ⟨Inv.init _ _ _, ⟨q, hq, rfl⟩, by simp, by simp⟩ (by simp)
+      hset hlit _ _ _ hc
+    have hinv := hR.inv
+    cases hg : s.guard with
+    | none =>
+      have hone : s.one.value = 1 := by rw [hinv.oneNone hg]; rfl
+      exact C07_true_transparent_programs body post _ regs frames s c x hb hok hg (hinv.ign_false_of_none hg) hbl hone
+        ⟨cv, hcv, hcond⟩ hx
+    | some g =>
+      have g1 : g.value = 1 := by
+        simpa [St.isGuard, hg] using hisg
+      have hone : s.one.value = 1 := by rw [hinv.oneSome g hg]; exact g1
+      exact C07_true_transparent_nested body post _ regs frames s c g x hb hok hg g1 (hinv.ign_false_of_one hg g1) hbl hone
+        ⟨cv, hcv, hcond⟩ hx
 
 /-- the same for flat bodies (no region inside the region, nothing after it), but in EVERY error mode
 (also when the user has switched error checking off) and at every bit length: `Twin is1 is2` says
@@ -376,6 +644,93 @@ theorem C07_unguarded_enforcement {p : ℕ} {s s' : St} {w' : Wire → Int} {v w
     (hp : s.p = p) (hg : s.guard = none) (h : addConstraint v w y check s = .ok (u, s')) (hw : NewSat s s' w') :
     ev p w' v.lc * ev p w' w.lc = ev p w' y.lc := addConstraint_unguarded_enforces hp hg h hw
 
+/-! ### same enforcement, gadget by gadget
+
+For every assignment `w'` that satisfies what the gadget emitted UNDER the guard `g` and gives the
+guard expression the value 1, the relation the unguarded gadget enforces (C02/C03: Lemmas/Sound.lean,
+quoted in each doc comment) holds under `w'`.  The extra wires of the guarded system (one dummy per
+`add_constraint`) are forced to 0; nothing is assumed about them. -/
+section enforcement
+variable {p : ℕ} [Fact p.Prime] {s s' : St} {w' : Wire → Int} {g : LinComb}
+
+/-- `x.assert_zero()` (unguarded: `assertZero_sound`, `x = 0`) -/
+theorem C07_true_enforcement_assertZero {x : LinComb} {u : Unit} (hp : s.p = p) (hg : s.guard = some g) (hx : x.lc.WF)
+    (h : assertZero x s = .ok (u, s')) (hw : NewSat s s' w') (hg1 : ev p w' g.lc = 1) : ev p w' x.lc = 0 :=
+  (assertZero_guarded_enforces hp hg hx h hw hg1).1
+
+/-- `a.assert_eq(b)` -/
+theorem C07_true_enforcement_assertEq {a b : LinComb} {u : Unit} (hp : s.p = p) (hg : s.guard = some g)
+    (ha : a.lc.WF) (hb : b.lc.WF) (h : assertEq a b s = .ok (u, s')) (hw : NewSat s s' w') (hg1 : ev p w' g.lc = 1) :
+    ev p w' a.lc = ev p w' b.lc := assertEq_guarded_enforces hp hg ha hb h hw hg1
+
+/-- `LinCombBool(x)` (unguarded: `mkBool_sound`, `x ∈ {0,1}`) -/
+theorem C07_true_enforcement_mkBool {x r : LinComb} (hp : s.p = p) (hg : s.guard = some g) (hx : x.lc.WF)
+    (h : mkBool x true s = .ok (r, s')) (h1 : w' .one = 1) (hw : NewSat s s' w') (hg1 : ev p w' g.lc = 1) :
+    ev p w' x.lc = 0 ∨ ev p w' x.lc = 1 := (mkBool_guarded_enforces hp hg hx h h1 hw hg1).2.1
+
+/-- `x.to_bits(bits)` (unguarded: `toBits_sound`): the bits are the binary digits of a natural
+`S < 2^n` and `x = S` -/
+theorem C07_true_enforcement_toBits {x : LinComb} {bits : Option Nat} {bs : List LinComb} (hp : s.p = p)
+    (hg : s.guard = some g) (hx : x.lc.WF) (h : toBits x bits s = .ok (bs, s'))
+    (h1 : w' .one = 1) (hw : NewSat s s' w') (hg1 : ev p w' g.lc = 1) :
+    bs.length = bits.getD s.bitlength ∧
+    ∃ S : ℕ, S < 2 ^ (bits.getD s.bitlength) ∧ ev p w' x.lc = (S : ZMod p) ∧
+      ∀ (i : Nat) (hi : i < bs.length), ev p w' bs[i].lc = ((S / 2 ^ i % 2 : ℕ) : ZMod p) :=
+  ⟨(toBits_guarded_enforces hp hg hx h h1 hw hg1).1, (toBits_guarded_enforces hp hg hx h h1 hw hg1).2.1⟩
+
+/-- `x.assert_positive(bits)` (unguarded: `assertPositive_sound`) -/
+theorem C07_true_enforcement_assertPositive {x : LinComb} {bits : Option Nat} {u : Unit} (hp : s.p = p)
+    (hg : s.guard = some g) (hx : x.lc.WF) (h : assertPositive x bits s = .ok (u, s'))
+    (h1 : w' .one = 1) (hw : NewSat s s' w') (hg1 : ev p w' g.lc = 1) :
+    InRange p (bits.getD s.bitlength) (ev p w' x.lc) := assertPositive_guarded_enforces hp hg hx h h1 hw hg1
+
+/-- `a.assert_lt(b)` (unguarded: `assertLt_sound`): `b − a − 1 ∈ [0, 2^bitlength)`; likewise
+`assert_le`, `assert_gt`, `assert_ge` -/
+theorem C07_true_enforcement_assertLt {a b : LinComb} {u : Unit} (hp : s.p = p) (hg : s.guard = some g)
+    (ha : a.lc.WF) (hb : b.lc.WF) (h : assertLt a b s = .ok (u, s')) (h1 : w' .one = 1) (hw : NewSat s s' w')
+    (hg1 : ev p w' g.lc = 1) : InRange p s.bitlength (ev p w' b.lc - ev p w' a.lc - 1) :=
+  assertLt_guarded_enforces hp hg ha hb h h1 hw hg1
+
+theorem C07_true_enforcement_assertLe {a b : LinComb} {u : Unit} (hp : s.p = p) (hg : s.guard = some g)
+    (ha : a.lc.WF) (hb : b.lc.WF) (h : assertLe a b s = .ok (u, s')) (h1 : w' .one = 1) (hw : NewSat s s' w')
+    (hg1 : ev p w' g.lc = 1) : InRange p s.bitlength (ev p w' b.lc - ev p w' a.lc) :=
+  assertLe_guarded_enforces hp hg ha hb h h1 hw hg1
+
+theorem C07_true_enforcement_assertGt {a b : LinComb} {u : Unit} (hp : s.p = p) (hg : s.guard = some g)
+    (ha : a.lc.WF) (hb : b.lc.WF) (h : assertGt a b s = .ok (u, s')) (h1 : w' .one = 1) (hw : NewSat s s' w')
+    (hg1 : ev p w' g.lc = 1) : InRange p s.bitlength (ev p w' a.lc - ev p w' b.lc - 1) :=
+  assertGt_guarded_enforces hp hg ha hb h h1 hw hg1
+
+theorem C07_true_enforcement_assertGe {a b : LinComb} {u : Unit} (hp : s.p = p) (hg : s.guard = some g)
+    (ha : a.lc.WF) (hb : b.lc.WF) (h : assertGe a b s = .ok (u, s')) (h1 : w' .one = 1) (hw : NewSat s s' w')
+    (hg1 : ev p w' g.lc = 1) : InRange p s.bitlength (ev p w' a.lc - ev p w' b.lc) :=
+  assertGe_guarded_enforces hp hg ha hb h h1 hw hg1
+
+/-- `x.check_positive(bits)`, hence `<`, `<=`, `>`, `>=` (unguarded: `checkPositive_sound`) -/
+theorem C07_true_enforcement_checkPositive {x r : LinComb} {bits : Option Nat} (hp : s.p = p) (hg : s.guard = some g)
+    (hx : x.lc.WF) (h : checkPositive x bits s = .ok (r, s')) (h1 : w' .one = 1) (hw : NewSat s s' w')
+    (hg1 : ev p w' g.lc = 1) :
+    (ev p w' r.lc = 1 ∧ InRange p (bits.getD s.bitlength) (ev p w' x.lc)) ∨
+    (ev p w' r.lc = 0 ∧ InNegRange p (bits.getD s.bitlength) (ev p w' x.lc)) :=
+  checkPositive_guarded_enforces hp hg hx h h1 hw hg1
+
+/-- `x * y` uses `add_constraint_unsafe`: the product is enforced whatever the guard is
+(`mulLL_sound` has no hypothesis on the guard) -/
+theorem C07_true_enforcement_mulLL {x y r : LinComb} (hp : s.p = p) (h : mulLL x y s = .ok (r, s'))
+    (hw : NewSat s s' w') : ev p w' r.lc = ev p w' x.lc * ev p w' y.lc := mulLL_sound hp h hw
+
+/-- `a / b` for two secrets (unguarded: `truedivLL_sound`, `b * r = a`) -/
+theorem C07_true_enforcement_truedivLL {a b r : LinComb} (hp : s.p = p) (hg : s.guard = some g) (ha : a.lc.WF)
+    (h : truedivLL a b s = .ok (r, s')) (hw : NewSat s s' w') (hg1 : ev p w' g.lc = 1) :
+    ev p w' b.lc * ev p w' r.lc = ev p w' a.lc := truedivLL_guarded_enforces hp hg ha h hw hg1
+
+/-- `x.assert_nonzero()`: the constraint is `x * wit = LinComb.ONE`, and inside the region
+`LinComb.ONE` is the guard (unguarded: `assertNonzero_sound`, `x ≠ 0`) -/
+theorem C07_true_enforcement_assertNonzero {x : LinComb} {u : Unit} (hp : s.p = p) (hg : s.guard = some g)
+    (hone : s.one = g) (hgw : g.lc.WF) (h : assertNonzero x s = .ok (u, s')) (hw : NewSat s s' w')
+    (hg1 : ev p w' g.lc = 1) : ev p w' x.lc ≠ 0 := assertNonzero_guarded_enforces hp hg hone hgw h hw hg1
+end enforcement
+
 /-- closed form of what the guarded call appends -/
 theorem C07_guarded_emission {v w y g : LinComb} {check : Bool} {s s' : St} {u : Unit}
     (hg : s.guard = some g) (h : addConstraint v w y check s = .ok (u, s')) :
@@ -444,5 +799,90 @@ example : Twin (exTBody ++ [.lit .none]) (exTBody ++ [.gleave]) ∧ exT.guard = 
     (runAux (.genter 5 :: (exTBody ++ [.gleave])) 7 exTRegs [] exT).err = some (.assertion, 10) ∧
     (runAux (.lit .none :: (exTBody ++ [.lit .none])) 7 exTRegs [] exT).err = some (.assertion, 10) := by
   refine ⟨.op rfl (.op rfl (.op rfl .done)), rfl, rfl, ⟨_, rfl, rfl⟩, by decide +kernel, by decide +kernel⟩
+
+/-! ### non-vacuity of the program-level theorems from the initial state -/
+
+/-- closed computation by kernel evaluation; `first` drops the lazily built error message of a
+failing `decide +kernel` (which can be very expensive to produce) -/
+macro "kdec07" : tactic =>
+  `(tactic| first
+    | decide +kernel
+    | fail "kdec07: the kernel does not evaluate this closed proposition to `true`")
+
+/-- a true region (condition `PrivVal(1)`) around a false region (condition `PrivVal(0)`) around a
+failing assertion, an inexact division, an out-of-range comparison; then code after both -/
+def exProgNest : List Instr :=
+  [.lit (.int 300), .mk .priv 0, .lit (.int (-7)), .mk .priv 2, .lit (.int 1), .mk .priv 4, .lit (.int 0), .mk .priv 6,
+   .genter 5, .genter 7, .call .assertEq 1 [3], .bin .truediv 1 3, .bin .lt 1 3, .gleave, .gleave, .bin .add 1 3]
+
+/-- (a) `C07_inert_program`: the program is plain, the run reaches instruction 10 (the failing
+assertion) with an effective guard of value 0 — the product of the outer 1 and the inner 0 —, the
+instruction is none of the deviations there; (b) `C07_sat_program` applies, and the run completes -/
+example : plainProg exProgNest = true ∧
+    ((cfgAt exProgNest 10 [] [] (St.init 97 8 8)).bind (fun c => c.2.2.guard)).map (·.value) = some 0 ∧
+    (cfgAt exProgNest 10 [] [] (St.init 97 8 8)).map
+      (fun c => stepOk c.2.2.resolution c.1 (.call .assertEq 1 [3])) = some true ∧
+    (run (St.init 97 8 8) exProgNest).err = none := by
+  exact ⟨by simp [plainProg, exProgNest, Val.noSecret], by kdec07, by kdec07, by kdec07⟩
+
+/-- the unguarded text raises where the guarded one does not: the same program without the inner
+markers fails at the assertion (instruction 10), so the inner false guard is what makes it inert -/
+example : (run (St.init 97 8 8) (exProgNest.set 9 (.lit .none))).err = some (.assertion, 10) := by kdec07
+
+/-- (d) `C07_true_transparent_nested`: a state under a guard of value 1 (fifth private wire); the
+region on `PrivVal(1)` (register 5) around a body with a false region of its own and a failing
+`assert_lt` after it: the hypotheses hold, both texts raise the same `AssertionError` at the same
+instruction -/
+def exTN : St :=
+  { (St.init 97 8 8) with priv := [5, 3, 1, 0, 1], guard := some ⟨1, [(Wire.priv 4, 1)]⟩, one := ⟨1, [(Wire.priv 4, 1)]⟩ }
+def exTNBody : List Instr :=
+  [.bin .lt 1 3, .genter 6, .call .assertEq 1 [3], .gleave, .bin .mul 1 3, .call .assertLt 1 [3]]
+example : bracketed exTNBody 0 = true ∧ (∀ i ∈ exTNBody, i.twinOk = true) ∧
+    exTN.guard = some ⟨1, [(Wire.priv 4, 1)]⟩ ∧ exTN.ignoreErrors = false ∧ 1 ≤ exTN.bitlength ∧ exTN.one.value = 1 ∧
+    (∃ cv, exTRegs[5]? = some cv ∧ condOf cv = some ⟨1, [(Wire.priv 2, 1)]⟩) ∧
+    (runAux (.genter 5 :: (exTNBody ++ .gleave :: [.bin .add 1 3])) 7 exTRegs [] exTN).err = some (.assertion, 13) ∧
+    (runAux (.lit .none :: (exTNBody ++ .lit .none :: [.bin .add 1 3])) 7 exTRegs [] exTN).err = some (.assertion, 13) := by
+  exact ⟨by decide, by decide, rfl, rfl, by decide, rfl, ⟨_, rfl, rfl⟩, by kdec07, by kdec07⟩
+
+/-- `C07_true_transparent_from_init`: the prefix enters a true region; at its end the effective
+guard is 1, the bit length 8, register 7 holds `PrivVal(1)`: the entry hypothesis holds -/
+def exPreN : List Instr :=
+  [.lit (.int 5), .mk .priv 0, .lit (.int 3), .mk .priv 2, .lit (.int 1), .mk .priv 4, .lit (.int 1), .mk .priv 6,
+   .lit (.int 0), .mk .priv 8, .genter 5]
+example : plainProg exPreN = true ∧
+    (cfgAt exPreN exPreN.length [] [] (St.init 97 8 8)).map
+      (fun c => (c.2.2.isGuard, decide (1 ≤ c.2.2.bitlength), ((c.1[7]?).bind condOf).map (·.value))) =
+      some (true, true, some 1) := by
+  exact ⟨by simp [plainProg, exPreN, Val.noSecret], by kdec07⟩
+
+/-- `C07_zerodiv_program`: zero tests and a division by a public integer under a false guard on
+values for which no field inversion fails: `stepOk` and `stepOkZ` hold at each of them (instructions
+7, 8, 9, 12), and the run completes -/
+def exProgZ : List Instr :=
+  [.lit (.int 300), .mk .priv 0, .lit (.int (-7)), .mk .priv 2, .lit (.int 0), .mk .priv 4, .genter 5,
+   .bin .eq 1 3, .bin .truediv 1 0, .call .checkNonzero 3 [], .arr [1, 3], .lit (.int 1), .aget 10 3, .gleave]
+example : plainProg exProgZ = true ∧
+    ([7, 8, 9, 12].all fun j => (cfgAt exProgZ j [] [] (St.init 97 8 8)).any fun c =>
+      (c.2.2.guard.any fun g => g.value == 0) &&
+      (exProgZ[j]?).any fun i => stepOk c.2.2.resolution c.1 i && stepOkZ c.2.2.p c.2.2.resolution c.1 i) = true ∧
+    (run (St.init 97 8 8) exProgZ).err = none := by
+  exact ⟨by simp [plainProg, exProgZ, Val.noSecret], by kdec07, by kdec07⟩
+
+/-- … and the counterexample `C07_cex_field_zero` is exactly a failure of `stepOkZ`: at the `==`
+(instruction 6) the effective guard is 0, `stepOk` holds, `stepOkZ` does not -/
+example : (cfgAt [.lit (.int bn254), .mk .priv 0, .lit (.int 0), .mk .priv 2, .genter 3, .lit (.int 0),
+      .bin .eq 1 5, .gleave] 6 [] [] (St.init bn254 8 8)).map
+    (fun c => (c.2.2.guard.map (·.value), stepOk c.2.2.resolution c.1 (.bin .eq 1 5),
+      stepOkZ c.2.2.p c.2.2.resolution c.1 (.bin .eq 1 5))) = some (some 0, true, false) := by kdec07
+
+/-- `C07_true_enforcement_assertLt`: `PrivVal(3).assert_lt(PrivVal(5))` under the guard of `exTN`
+(value 1) runs; the recorded witness satisfies every constraint emitted and gives the guard
+expression the value 1, so the hypotheses are satisfiable (18 constraints: 9 relations, each with its guard constraint) -/
+example : (match assertLt ⟨3, [(Wire.priv 1, 1)]⟩ ⟨5, [(Wire.priv 0, 1)]⟩ exTN with
+    | .ok (_, s') =>
+      (newCons exTN s').all (fun c =>
+        (LC.eval s'.assign c.1 * LC.eval s'.assign c.2.1 - LC.eval s'.assign c.2.2) % 97 == 0) &&
+      LC.eval s'.assign [(Wire.priv 4, 1)] % 97 == 1 && (newCons exTN s').length == 18
+    | .error _ => false) = true := by kdec07
 
 end Pysnark
